@@ -220,6 +220,15 @@ class Program:
                 if root in self.fns:
                     self.fns[root].closures.append(fn)
 
+    def impl_fn(self, trait, self_ty, name):
+        """method `name` of `impl trait for self_ty` (trait None = inherent)."""
+        for i in self.impls:
+            if i.get("trait") == trait and i["self"] == self_ty:
+                for it in i["items"]:
+                    if it["name"] == name and it["path"] in self.fns:
+                        return self.fns[it["path"]]
+        raise AnchorMissing(f"impl {trait} for {self_ty}: method {name} not found")
+
     def fn(self, path):
         f = self.fns.get(path)
         if f is None:
@@ -745,3 +754,39 @@ def pat_str(p):
     if k in ("Ref", "Box", "Deref"):
         return "&" + pat_str(p["p"])
     return k or "?"
+
+
+def walk_lets(n):
+    """all `let` statements anywhere below n (blocks are reached through walk)"""
+    for x in walk(n):
+        if x.get("k") in ("Block", "Loop"):
+            for st in x["b"]["stmts"]:
+                if st["k"] == "Let":
+                    yield st
+
+
+def format_args(fn_or_node):
+    """[(formatter fn name e.g. 'new_lower_hex', argument expr)] for every format_args! in order of use."""
+    out = []
+    root = fn_or_node.body if isinstance(fn_or_node, Fn) else fn_or_node
+    tuples = {}
+    for st in walk_lets(root):
+        if st["pat"].get("k") == "Binding" and "init" in st and strip(st["init"]).get("k") == "Tup":
+            tuples[st["pat"]["lid"]] = strip(st["init"])["args"]
+    for n in walk(root):
+        if n.get("k") == "Match" and n.get("src") == "FormatArgs":
+            tup = strip(n["e"])
+            if tup.get("k") == "Tup" and n["arms"] and n["arms"][0]["pat"].get("k") == "Binding":
+                tuples[n["arms"][0]["pat"]["lid"]] = tup["args"]
+    for n in walk(root):
+        if n.get("k") == "Call" and "fmt::rt::Argument" in (callee(n) or "") and n["args"]:
+            a = strip(n["args"][0])
+            name = (callee(n) or "").rsplit("::", 1)[-1]
+            if a.get("k") == "Field" and a["f"].isdigit():
+                base = strip(a["e"])
+                el = tuples.get(base.get("lid"))
+                if el is not None and int(a["f"]) < len(el):
+                    out.append((name, el[int(a["f"])]))
+                    continue
+            out.append((name, n["args"][0]))
+    return out
